@@ -34,7 +34,8 @@ RULE = (
     'executed on ONE curve object; on named curves the logarithms are aimed at 0, 1, bound-1, '
     'j*t +- (ts-1), j*t +- ts with ts = int(sqrt(bound*len)), t = 2*ts-1 recomputed by the harness '
     'only to aim; empty lists and a bound of 0 (nothing claimed, a list must come back) are '
-    'included. Structured keys: every shift j (multiple of 8 with w << j below the order for '
+    'included; one BatchDL call is made for every giant-step count 2..39 and 2^k-1..2^k+2 (k up to 11, thorough 12; '
+    'list lengths 1, 2, 5; smallest and largest bound with that count; logarithms in the last steps). Structured keys: every shift j (multiple of 8 with w << j below the order for '
     'some 32-bit w, so also the windows that stick out of a 521-bit order) and every repeat count '
     '2..ceil(bits/32) (with w*(1+2^32+...) below the order) per curve with w in {1, largest '
     'admissible, 2^31, giant-step edges, random}; close pairs at distance 1, 2, max_diff-1, '
@@ -651,6 +652,62 @@ def run_named_history(d):
   return {'nt': bool(flags.get('hist') or flags.get('edge')), 'cls': sorted(cls)}
 
 
+def _bounds_with_steps(gs, L):
+  """Smallest and largest bound n for which BatchDL on L points takes exactly gs giant steps
+  (2 + n // (2 * int(sqrt(n * L)) - 1)), found by a scan around 4 * (gs - 2)^2 * L."""
+  g = gs - 2
+  n0 = 4 * g * g * L
+  span = 8 * (g + 2) * L + 16
+  hits = []
+  for n in range(max(1, n0 - span), n0 + span):
+    ts = _isqrt_f(n * L)
+    t = 2 * ts - 1
+    if t > 0 and 2 + n // t == gs:
+      hits.append(n)
+  return (hits[0], hits[-1]) if hits else None
+
+
+def run_named_steps(d):
+  """One BatchDL call whose number of giant steps is d['gs']; logarithms in the last steps."""
+  cid = d['curve']
+  order = eg.ref(cid).n
+  curve = ec_util.CURVE_FACTORY[cid]
+  L = d['len']
+  lo_hi = _bounds_with_steps(d['gs'], L)
+  if lo_hi is None:
+    return {'nt': False, 'cls': ['steps: no bound with this step count']}
+  bound = lo_hi[d['which'] % 2]
+  ts = _isqrt_f(bound * L)
+  t = 2 * ts - 1
+  cand = [bound - 1, bound - 2, (d['gs'] - 1) * t - (ts - 1), (d['gs'] - 2) * t + (ts - 1), (d['gs'] - 2) * t,
+          bound // 2, 0, bound, ts - 1, ts, t]
+  xs = [max(0, cand[(i + d['which']) % len(cand)]) for i in range(L)]
+  _reset_named()
+  cls = {'curve=' + eg.CURVE_NAMES[cid], 'steps=%s' % (d['gs'] if d['gs'] < 8 else '8-127' if d['gs'] < 128
+                                                       else '128-1023' if d['gs'] < 1024 else '1024+')}
+  flags = {}
+  try:
+    _exec_ops(curve, [('batchdl', xs, bound)], order, lambda x: _named_point(cid, x), True, False, cls, flags)
+  finally:
+    _reset_named()
+  return {'nt': True, 'cls': sorted(cls), 'bound': bound}
+
+
+def enum_named_steps(tier):
+  steps = set(range(2, 40))
+  for k in range(6, 12 if tier == 'quick' else 13):
+    steps.update((2**k - 1, 2**k, 2**k + 1, 2**k + 2))
+  if tier == 'thorough':
+    steps.update(range(40, 1100, 7))
+    steps.update((1023 + 1024, 1024 * 3, 1024 * 3 + 1))
+  curves = [C.CURVE_SECP256R1] if tier == 'quick' else [C.CURVE_SECP256R1, C.CURVE_SECP521R1, C.CURVE_SECP224R1]
+  for cid in curves:
+    for gs in sorted(steps):
+      for L in (1, 2, 5):
+        for which in (0, 1):
+          yield {'curve': int(cid), 'gs': gs, 'len': L, 'which': which}
+
+
 def _bound_spec(tier):
   kmax = 16 if tier == 'quick' else 20
   mmax = 16 if tier == 'quick' else 64
@@ -1016,6 +1073,9 @@ ARMS = [
     Arm('named_history', run_named_history, strategy=strat_named_history, quick=4000,
         thorough=40000, budget=(150, 2400),
         doc='call histories on the shared named-curve objects, logarithms aimed at the edges'),
+    Arm('named_giant_steps', run_named_steps, enumerate=enum_named_steps, exhaustive=True, budget=(300, 3000),
+        doc='one BatchDL call per giant-step count 2..39 and 2^k-1..2^k+2 (k up to 11/12), list lengths 1, 2, 5, '
+            'smallest and largest bound with that count, logarithms in the last steps'),
     Arm('small_difference', run_smalldiff, strategy=strat_smalldiff, quick=3200, thorough=10000,
         budget=(150, 2400),
         doc='CheckECKeySmallDifference(max_diff): close pairs, identical keys, several curves'),
